@@ -2,6 +2,7 @@
 From Coq Require Import ZArith Arith List Bool.
 From B2Z Require Import Model.Icf Proofs.IcfProofs Gen.GenIcfWriter Bridge.BridgeIcfWriter.
 From B2Z Require Import Gen.GenIterValues Bridge.BridgeIterValues.
+From B2Z Require Import Base.ExtZ Gen.GenSummary Bridge.BridgeSummary.
 Import ListNotations.
 Open Scope nat_scope.
 
@@ -108,3 +109,29 @@ Example c08_writer_instance :
   let '(s, ev) := run 10%Z [(1, 6%Z); (2, 6%Z); (3, 1%Z)] in
   ev = [WriteChunk 2%Z [1; 2]; WriteChunk 3%Z [3]; WriteIndex [0%Z; 2%Z; 3%Z]] /\ GenIcfWriter.num_records s = 3%Z.
 Proof. vm_compute. split; reflexivity. Qed.
+
+(* TRANSLATOR TIE: the integer field summaries as regenerated from the source on this run (translator/summ2coq.py ->
+   Gen/GenSummary.v): IntegerValueTransformer.update_bounds folds one record's value into the running summary, and
+   VcfFieldSummary.update merges the partitions' summaries at finalise.  Through the abstraction "min / max are both at
+   their infinite defaults or both finite" they ARE the model's upd / merge that summary_bounds and
+   summary_partition_independent are about; well-formedness is preserved from the dataclass defaults on. *)
+Theorem translated_update_bounds_is_the_model : forall s v, wf s ->
+  wf (gen_update_bounds s v) /\ abs (gen_update_bounds s v) = upd (abs s) v.
+Proof. exact translated_update_bounds_lemma. Qed.
+Print Assumptions translated_update_bounds_is_the_model.
+
+Theorem translated_summary_merge_is_the_model : forall s t, wf s -> wf t ->
+  wf (gen_update s t) /\ abs (gen_update s t) = merge (abs s) (abs t).
+Proof. exact translated_update_lemma. Qed.
+Print Assumptions translated_summary_merge_is_the_model.
+
+(* a whole partition: folding the translated update over its values from the defaults gives the model's summary *)
+Theorem translated_partition_summary : forall vs,
+  abs (fold_left gen_update_bounds vs gen_summary0) = summarise vs.
+Proof. intros vs. destruct (translated_summarise_lemma vs gen_summary0 (proj1 wf0)) as [_ E]. rewrite E, (proj2 wf0). reflexivity. Qed.
+Print Assumptions translated_partition_summary.
+
+Example translated_summary_instance :
+  abs (fold_left gen_update_bounds [(2, [5; -2147483648]); (3, [-7; 9; -2147483647])]%Z gen_summary0)
+  = {| i_maxnum := 3; i_bounds := Some (-7, 9)%Z |}.
+Proof. vm_compute. reflexivity. Qed.
